@@ -115,11 +115,11 @@ def run(tier, only=None):
     rep = common.Report("C19", tier, EXPLANATION)
     # ---- L5 and L4 first: they need nothing from C04 ----
     l5(rep)
+    deferred = None
     try:
         l4(rep)
     except AnalysisBroken as e:
-        if not rep.violations:
-            raise
+        deferred = e            # L1 may report the same edit by name; only if nothing does is the analysis broken
         rep.note("L4 not completed: %s" % e)
     # ---- L1 ----
     try:
@@ -239,6 +239,8 @@ def run(tier, only=None):
     for v in r5.violations:
         if ":float:" in v["key"]:
             rep.violation("L3", v["key"].split(":", 1)[1], v["where"], v["message"])
+    if deferred is not None and not rep.violations:
+        raise deferred
     rep.assumptions += ["atof and strtod(s, 0) are one primitive by the C standard",
                         "17 significant decimal digits identify a binary64 value (IEEE 754)"]
     return rep
